@@ -8,6 +8,8 @@ from __future__ import annotations
 import ast
 import json
 import os
+import re
+from fractions import Fraction
 
 from vlib.common import REPO
 from translate.templates import KINDS, Affine, TranslateError, coq_ang
@@ -231,6 +233,127 @@ def extract():
     return res
 
 
+def special_branches():
+    """The PauliRotation and UnitaryMatrix branches of inverse_gate (outside the per-kind table).
+    PauliRotation: the gate rebuilt on the same targets / Pauli ids with the angle scaled by a constant (expected -1).
+    UnitaryMatrix: the gate rebuilt on the same targets with a matrix obtained from gate.unitary_matrix by a chain of
+    np.array / .conj() / .conjugate() / .T / .transpose() / .tolist(): recorded as (conjugated?, transposed?)."""
+    tree = _parse(PATH)
+    fn = [n for n in tree.body if isinstance(n, ast.FunctionDef) and n.name == "inverse_gate"]
+    if len(fn) != 1:
+        raise TranslateError("inverse_gate not found")
+    body = fn[0].body
+    if not (isinstance(body[0], ast.Assign) and ast.unparse(body[0]) == "target_indices = gate.target_indices"):
+        raise TranslateError("inverse_gate: expected `target_indices = gate.target_indices` first")
+    chain = [s for s in body if isinstance(s, ast.If)]
+    if len(chain) != 1:
+        raise TranslateError("inverse_gate: expected one if/elif chain")
+    branches, node = {}, chain[0]
+    while True:
+        t = ast.unparse(node.test)
+        m = re.fullmatch(r"gate\.name == gate_names\.(\w+)", t)
+        if m:
+            branches[m.group(1)] = node.body
+        if len(node.orelse) == 1 and isinstance(node.orelse[0], ast.If):
+            node = node.orelse[0]
+        else:
+            break
+    out = {}
+    # ---- PauliRotation
+    b = branches.get("PauliRotation")
+    if b is None:
+        raise TranslateError("inverse_gate: no PauliRotation branch")
+    env = {}
+    res = None
+    for st in b:
+        if not (isinstance(st, ast.Assign) and len(st.targets) == 1 and isinstance(st.targets[0], ast.Name)):
+            raise TranslateError("PauliRotation branch: only simple assignments are supported")
+        name, v = st.targets[0].id, st.value
+        s = ast.unparse(v)
+        if s == "gate.pauli_ids":
+            env[name] = ("ids",)
+        elif s == "gate.params[0]":
+            env[name] = ("angle", Fraction(1))
+        elif isinstance(v, ast.UnaryOp) and isinstance(v.op, ast.USub) and isinstance(v.operand, ast.Name) \
+                and env.get(v.operand.id, ("",))[0] == "angle":
+            env[name] = ("angle", -env[v.operand.id][1])
+        elif isinstance(v, ast.BinOp) and isinstance(v.op, ast.Mult):
+            l, r = v.left, v.right
+            if isinstance(l, ast.Name) and env.get(l.id, ("",))[0] == "angle":
+                l, r = r, l
+            if isinstance(r, ast.Name) and env.get(r.id, ("",))[0] == "angle":
+                c = l.operand if isinstance(l, ast.UnaryOp) and isinstance(l.op, ast.USub) else l
+                if isinstance(c, ast.Constant) and isinstance(c.value, (int, float)) and c.value == int(c.value):
+                    k = Fraction(int(c.value)) * (-1 if c is not l else 1)
+                    env[name] = ("angle", env[r.id][1] * k)
+                    continue
+            raise TranslateError(f"PauliRotation branch: unsupported `{s}`")
+        elif isinstance(v, ast.Call) and ast.unparse(v.func) == "gates.PauliRotation" and len(v.args) == 3 and not v.keywords:
+            a0, a1, a2 = v.args
+            ok = ast.unparse(a0) == "target_indices" and isinstance(a1, ast.Name) and env.get(a1.id) == ("ids",) \
+                and isinstance(a2, ast.Name) and env.get(a2.id, ("",))[0] == "angle"
+            if not ok or name != "inverse_gate":
+                raise TranslateError(f"PauliRotation branch: unsupported construction `{s}`")
+            res = env[a2.id][1]
+        else:
+            raise TranslateError(f"PauliRotation branch: unsupported `{s}`")
+    if res is None or res.denominator != 1:
+        raise TranslateError("PauliRotation branch builds no gate")
+    out["PauliRotation"] = {"angle_scale": int(res)}
+    # ---- UnitaryMatrix
+    b = branches.get("UnitaryMatrix")
+    if b is None:
+        raise TranslateError("inverse_gate: no UnitaryMatrix branch")
+
+    def mat(node, env):
+        """-> (conj, transposed) of gate.unitary_matrix"""
+        if isinstance(node, ast.Name) and node.id in env:
+            return env[node.id]
+        if ast.unparse(node) == "gate.unitary_matrix":
+            return (False, False)
+        if isinstance(node, ast.Attribute) and node.attr == "T":
+            c, t = mat(node.value, env)
+            return (c, not t)
+        if isinstance(node, ast.Call):
+            f = node.func
+            if isinstance(f, ast.Attribute) and f.attr in ("conj", "conjugate") and not node.args \
+                    and not (isinstance(f.value, ast.Name) and f.value.id in ("np", "numpy")):
+                c, t = mat(f.value, env)
+                return (not c, t)
+            if isinstance(f, ast.Attribute) and f.attr == "transpose" and not node.args \
+                    and not (isinstance(f.value, ast.Name) and f.value.id in ("np", "numpy")):
+                c, t = mat(f.value, env)
+                return (c, not t)
+            if isinstance(f, ast.Attribute) and f.attr == "tolist" and not node.args:
+                return mat(f.value, env)
+            fs = ast.unparse(f)
+            if fs in ("np.array", "np.asarray", "numpy.array") and len(node.args) == 1 \
+                    and all(k.arg == "dtype" for k in node.keywords):
+                return mat(node.args[0], env)
+            if fs in ("np.conj", "np.conjugate") and len(node.args) == 1:
+                c, t = mat(node.args[0], env)
+                return (not c, t)
+            if fs == "np.transpose" and len(node.args) == 1:
+                c, t = mat(node.args[0], env)
+                return (c, not t)
+        raise TranslateError(f"UnitaryMatrix branch: unsupported matrix expression `{ast.unparse(node)}`")
+    env, res = {}, None
+    for st in b:
+        if not (isinstance(st, ast.Assign) and len(st.targets) == 1 and isinstance(st.targets[0], ast.Name)):
+            raise TranslateError("UnitaryMatrix branch: only simple assignments are supported")
+        name, v = st.targets[0].id, st.value
+        if isinstance(v, ast.Call) and ast.unparse(v.func) == "gates.UnitaryMatrix" and len(v.args) == 2 and not v.keywords:
+            if ast.unparse(v.args[0]) != "target_indices" or name != "inverse_gate":
+                raise TranslateError("UnitaryMatrix branch: the inverse must be built on target_indices")
+            res = mat(v.args[1], env)
+        else:
+            env[name] = mat(v, env)
+    if res is None:
+        raise TranslateError("UnitaryMatrix branch builds no gate")
+    out["UnitaryMatrix"] = {"conj": res[0], "transpose": res[1]}
+    return out
+
+
 def emit_coq(inv: dict, known_bad: list[str]) -> str:
     rows = []
     for name in sorted(inv):
@@ -246,10 +369,20 @@ def emit_coq(inv: dict, known_bad: list[str]) -> str:
             f"(* kinds listed in KNOWN_FINDINGS.txt for C12 *)\nDefinition inverse_known_bad : list gkind := [{kb}].\n")
 
 
+def emit_special(sp: dict) -> str:
+    b = lambda x: "true" if x else "false"  # noqa: E731
+    return ("\n(* the UnitaryMatrix branch of inverse_gate: (conjugated?, transposed?) matrix on the same targets *)\n"
+            f"Definition um_inverse_flags : bool * bool := ({b(sp['UnitaryMatrix']['conj'])}, {b(sp['UnitaryMatrix']['transpose'])}).\n"
+            "(* the PauliRotation branch: same targets and Pauli ids, the angle multiplied by *)\n"
+            f"Definition prot_inverse_scale : Z := ({sp['PauliRotation']['angle_scale']})%Z.\n")
+
+
 def run(gen_dir, json_path, known_bad):
     inv = extract()
-    open(os.path.join(gen_dir, "invtab.v"), "w").write(emit_coq(inv, known_bad))
+    sp = special_branches()
+    open(os.path.join(gen_dir, "invtab.v"), "w").write(emit_coq(inv, known_bad) + emit_special(sp))
     json.dump(inv, open(json_path, "w"), indent=1)
+    json.dump(sp, open(os.path.join(os.path.dirname(json_path), "invspecial.json"), "w"), indent=1)
     return inv
 
 
